@@ -46,6 +46,7 @@ void hex(char *dst, const void *src, size_t n); /* dst must hold 2n+1 */
 const char *sym_name(const void *addr);         /* exact-address symbol name from <argv0>.syms (nm), "?" if unknown */
 const char *sym_containing(const void *addr, long *off);
 void *sym_addr(const char *name);               /* NULL if unknown */
+uintptr_t sym_next_global(uintptr_t a);         /* address of the next global text symbol above a */
 
 /* ---------- guarded memory ---------- */
 enum { G_END = 0, G_START = 1, G_MID = 2 };
